@@ -88,6 +88,7 @@ def gen_model(ch: Chooser, benign: bool):
         if form == "param":
             d["parameter"] = True
             d["ents"][0]["init"] = lit()
+            d["no_stmt"] = False        # may be written with a PARAMETER statement: `parameter (s = '...')`
         elif form == "init":
             d["ents"][0]["init"] = lit()
         else:
